@@ -525,6 +525,11 @@ def fake_http_proxy(c, a, rec):
         c.sendall(b'\x00\x01\x02 garbage\r\n\r\n')
     elif host == 'slow.test':
         time.sleep(30)
+    elif host.startswith('late-'):
+        # answers 200 after n seconds, then echoes
+        time.sleep(float(host.split('-')[1].split('.')[0]))
+        c.sendall(b'HTTP/1.1 200 OK\r\n\r\n')
+        _echo_loop(c)
     # close.test: just return (close)
 
 
